@@ -10,4 +10,5 @@ cargo build --release -p pcv_alloc
 # prime the Miri sysroots (host and the 32-bit target of stage miri32) and the interpreted builds of the workers
 CARGO_TARGET_DIR="$PWD/target-miri" MIRIFLAGS="-Zmiri-disable-isolation" cargo +nightly miri run --release -p pcv_core -- NOOP || echo "setup: miri priming failed (miri stages will report inconclusive)"
 cargo +nightly miri setup --target i686-unknown-linux-gnu || echo "setup: miri sysroot for i686 failed (miri32 stages will report inconclusive)"
+cargo +nightly miri setup --target s390x-unknown-linux-gnu || echo "setup: miri sysroot for s390x failed (miribe stages will report inconclusive)"
 CARGO_TARGET_DIR="$PWD/target-miri" MIRIFLAGS="-Zmiri-disable-isolation" cargo +nightly miri run --release -p pcv_core --target i686-unknown-linux-gnu -- NOOP || echo "setup: miri32 priming failed"
